@@ -22,6 +22,10 @@ let required = function
   | "wise" -> ["acct"; "fee"]
   | imp -> flag_order imp
 
+(* wise, IN with conversion: false = the code as it stands; set to true (or run with
+   C13_WISE_REPAIRED=1) once findings/C13-wise-incoming-conversion.patch or an equivalent fix is applied *)
+let wise_repaired = (Sys.getenv_opt "C13_WISE_REPAIRED" = Some "1") || false
+
 let run_b (imp : string) (inp : string) (obs : string) : string * string =
   let (fl, _, items) = split3 inp in
   let flags = flag_assoc fl in
@@ -36,6 +40,7 @@ let run_b (imp : string) (inp : string) (obs : string) : string * string =
       render (match imp with
         | "revolut2" -> K.run_revolut2 (a "acct") (a "fee") its
         | "revolut" -> K.run_revolut (a "acct") its
+        | "wise" -> K.run_wise wise_repaired (a "acct") (a "fee") (a "trading") its
         | _ -> failwith ("unknown importer " ^ imp)) in
   let (base, pr, rows) = split_observed obs in
   let cls = match String.index_opt base ' ' with Some i -> String.sub base 0 i | None -> base in
@@ -52,4 +57,4 @@ let run_b (imp : string) (inp : string) (obs : string) : string * string =
 
 let () =
   List.iter (fun imp -> register ("C13." ^ imp) (run_b imp))
-    ["revolut2"; "revolut"]
+    ["revolut2"; "revolut"; "wise"]
